@@ -2,6 +2,7 @@ SPECIFICATION Spec
 CONSTANTS
   BaseWorld <- SysBase
   VarChoices <- SysVarChoices
+  PointLists <- SysPointLists
   MaxObjs = 5
   MaxMasks = 3
   MaxConvs = 4
